@@ -14,19 +14,18 @@ namespace BeyondVerif.C11
 open BeyondVerif.R BeyondVerif.NumReal
 
 /-- **The table given at the creation of the station is the table the station holds** (clause "the given table"):
-a mask handed over as a list / tuple of the two rows, to `create_station` or to `TopocentricFrame` directly, is stored
-unchanged — same nodes, same order, the closing node at 2π included.
-
-`_partial`: the full statement is `∀ arg ∈ {.seq tbl, .arr tbl}, createStationMask arg = .stored (.table tbl)` — whatever
-kind of object carries the table.  It is false for the current code when the table comes as a `numpy.ndarray`
-(`createStationMask (.arr tbl) = .raises`: Witness/C11.lean `mask_given_as_ndarray_is_rejected`, known finding
-`C11-mask-ndarray-at-creation`); proved here for lists / tuples of rows. -/
-theorem mask_given_at_creation_is_stored_partial (tbl : List (ℝ × ℝ)) :
-    createStationMask (.seq tbl) = .stored (.table tbl) ∧ initMask (.seq tbl) = .stored (.table tbl) :=
-  ⟨rfl, rfl⟩
+a mask handed over to `create_station` or to `TopocentricFrame` directly — as a list / tuple of the two rows or as a 2xN
+`numpy.ndarray`, whatever kind of object carries the table — is stored unchanged: same nodes, same order, the closing node at
+2π included. -/
+theorem mask_given_at_creation_is_stored (tbl : List (ℝ × ℝ)) (arg : MaskArg) (h : arg = .seq tbl ∨ arg = .arr tbl) :
+    createStationMask arg = .stored (.table tbl) ∧ initMask arg = .stored (.table tbl) := by
+  rcases h with rfl | rfl <;> exact ⟨rfl, rfl⟩
 
 example : createStationMask (.seq [(1, 0.1), (2 * Real.pi, 0.3)]) = .stored (.table [(1, 0.1), (2 * Real.pi, 0.3)]) :=
-  (mask_given_at_creation_is_stored_partial _).1
+  (mask_given_at_creation_is_stored _ _ (Or.inl rfl)).1
+
+example : createStationMask (.arr [(1, 0.1), (2 * Real.pi, 0.3)]) = .stored (.table [(1, 0.1), (2 * Real.pi, 0.3)]) :=
+  (mask_given_at_creation_is_stored _ _ (Or.inr rfl)).1
 
 /-- no mask given (argument omitted, `None`, `[]`, `()`): the station has no mask -/
 theorem no_mask_given_is_no_mask :
@@ -91,31 +90,30 @@ theorem mask_after_any_history_is_pwl_interp (arg : MaskArg) (ops : List MaskOp)
     rw [(mask_read_is_function_of_current_table s ops azim).1, h1, h2]
     simp only [storeGet, hv]
 
-/-- **… in particular for the table given at the creation of the station** (`create_station(name, latlonalt, mask=[[az…], [el…]])`
-or `TopocentricFrame(name, o, c, mask=…)`), at once or after any number of earlier reads: every `get_mask(azim)` is the
-piecewise-linear interpolation of the table that was given.
-
-`_partial`: for a table given as a list / tuple of rows; given as a `numpy.ndarray` the creation itself raises
-(Witness/C11.lean `mask_given_as_ndarray_is_rejected`), and the table has to be assigned afterwards
-(`mask_after_any_history_is_pwl_interp` covers that). -/
-theorem mask_given_at_creation_is_pwl_interp_partial (tbl : List (ℝ × ℝ)) (hne : tbl ≠ []) (hinc : StrictIncr tbl)
-    (hlast : (tbl.getLast hne).1 = 2 * Real.pi) (earlier : List ℝ) (azim : ℝ) :
+/-- **… in particular for the table given at the creation of the station** (`create_station(name, latlonalt, mask=…)` or
+`TopocentricFrame(name, o, c, mask=…)`, the table being a list / tuple of rows or a 2xN `numpy.ndarray`), at once or after any
+number of earlier reads: every `get_mask(azim)` is the piecewise-linear interpolation of the table that was given. -/
+theorem mask_given_at_creation_is_pwl_interp (tbl : List (ℝ × ℝ)) (arg : MaskArg) (harg : arg = .seq tbl ∨ arg = .arr tbl)
+    (hne : tbl ≠ []) (hinc : StrictIncr tbl) (hlast : (tbl.getLast hne).1 = 2 * Real.pi) (earlier : List ℝ) (azim : ℝ) :
     ∃ (rs : List MaskReply) (v : ℝ),
-      stationMaskRun (.seq tbl) (earlier.map MaskOp.query ++ [.query azim]) = some (.table tbl, .table tbl, rs ++ [.value v]) ∧
+      stationMaskRun arg (earlier.map MaskOp.query ++ [.query azim]) = some (.table tbl, .table tbl, rs ++ [.value v]) ∧
       PwlAt (maskPoints tbl) (fmod azim (2 * Real.pi)) v := by
-  have h : stationMaskRun (.seq tbl) (earlier.map MaskOp.query) =
+  have h : stationMaskRun arg (earlier.map MaskOp.query) =
       some (.table tbl, .table tbl, (maskRun (.table tbl) (earlier.map MaskOp.query)).2) := by
+    unfold stationMaskRun
+    rw [(mask_given_at_creation_is_stored tbl arg harg).1]
     show some (_, (maskRun (.table tbl) (earlier.map MaskOp.query)).1, _) = _
     rw [maskRun_queries_keep_store]
   obtain ⟨v, hv, hp⟩ := mask_after_any_history_is_pwl_interp _ _ _ _ tbl h hne hinc hlast azim
   exact ⟨_, v, hv, hp⟩
 
-/-- the hypotheses are satisfiable: the two-node table of the documentation, read in its last segment after two other reads -/
+/-- the hypotheses are satisfiable: the two-node table of the documentation, given as an array, read in its last segment after
+two other reads -/
 example : ∃ (rs : List MaskReply) (v : ℝ),
-    stationMaskRun (.seq [(Real.pi, 0.05), (2 * Real.pi, 0.4)]) ([0, 7].map MaskOp.query ++ [.query 4.7]) =
+    stationMaskRun (.arr [(Real.pi, 0.05), (2 * Real.pi, 0.4)]) ([0, 7].map MaskOp.query ++ [.query 4.7]) =
       some (.table [(Real.pi, 0.05), (2 * Real.pi, 0.4)], .table [(Real.pi, 0.05), (2 * Real.pi, 0.4)], rs ++ [.value v]) ∧
     PwlAt (maskPoints [(Real.pi, 0.05), (2 * Real.pi, 0.4)]) (fmod 4.7 (2 * Real.pi)) v := by
-  refine mask_given_at_creation_is_pwl_interp_partial _ (by simp) ?_ (by simp) _ _
+  refine mask_given_at_creation_is_pwl_interp _ _ (Or.inr rfl) (by simp) ?_ (by simp) _ _
   have : Real.pi < 2 * Real.pi := by linarith [Real.pi_pos]
   simp [StrictIncr, this]
 
